@@ -1,5 +1,5 @@
 (* The single entry point of the correspondence drivers. *)
-From PV Require Import Common.Wire Frame.Dispatch Chain.Dispatch Socks.Dispatch Mux.Dispatch Flow.Dispatch Keepalive.Model Atomic.Model Gate.Model Client.Backoff.
+From PV Require Import Common.Wire Frame.Dispatch Chain.Dispatch Socks.Dispatch Mux.Dispatch Flow.Dispatch Keepalive.Model Atomic.Model Gate.Model Client.Backoff Tls.Model.
 
 Definition dispatch (c : list N) : list N :=
   match c with
@@ -12,5 +12,6 @@ Definition dispatch (c : list N) : list N :=
   | 12 :: r => run_atomic r
   | 14 :: r => run_gate r
   | 19 :: r => run_client r
+  | 17 :: r => run_tls r
   | _ => MALFORMED
   end.
